@@ -945,7 +945,11 @@ class Stage:
 
     @property
     def objective(self):
-        return self._objective
+        # Own terms plus those of the sub-stages: the cost that is minimised
+        r = self._objective
+        for s in self._stages:
+            r = r + s.objective
+        return r
 
     @property
     def x(self):
@@ -1742,7 +1746,11 @@ class Stage:
             Arbitrary expression containing no signals (states, controls) ...
         """
         placeholders = self.master.placeholders_transcribed
-        return placeholders(self._method.eval(self, expr))
+        expr = self._method.eval(self, expr)
+        # Global variables and parameters of sub-stages (e.g. inside the objective of the whole problem)
+        for s in self.iter_stages():
+            expr = s._method.eval(s, expr)
+        return placeholders(expr)
 
     @transcribed
     def initial_value(self, expr):
